@@ -249,3 +249,34 @@ def run(chk, repo):
     from rules.shared import optname
     chk.clauses.append('C08.g (shared R-THREAD) an option value bound to a name that is itself a CLI option carries that very option')
     optname(chk, repo, 'C08.g', ['cli.call_novel_orf'], floor=0)
+    # ------------------------------------------------------------------ h: --orf-assignment decides attribution only
+    from sa import sem as _sem8
+    chk.rule('C08.h', 'R-OPTION scope: the ORF-assignment strategy never guards the start-site search, the staging of cursors or the calling of peptides', 3)
+    chk.clauses.append('C08.h --orf-assignment only selects which open ORF a peptide is attributed to: no start-site search, cursor staging or peptide call '
+                       'is conditioned on it (the peptide set is the same under min and max)')
+    GEN = ('find_all_start_sites', 'add_miscleaved_sequences', 'PVGCursor', 'stage', 'call_and_stage_unknown_orf', 'call_and_stage_known_orf_in_cds',
+           'call_and_stage_known_orf_not_in_cds')
+    for q in ('svgraph.PeptideVariantGraph:PeptideVariantGraph.call_and_stage_unknown_orf', 'svgraph.PeptideVariantGraph:PeptideVariantGraph.call_variant_peptides'):
+        g_ = repo.func(q)
+        chk.uses(g_)
+        ng_ = _sem8.nf(repo, g_)
+        sites = _sem8.facts_where(ng_, lambda st: _sem8.own_stmt(st) and any(_sem8.calls_in_stmt(st, nm) for nm in GEN))
+        bad = []
+        for st, fx in sites:
+            if fx is None:
+                continue
+            txt = ' '.join(list(fx.d) + [t_ for (t_, _e, _tr) in fx.cons] + [' '.join(a for a, _p in c) for c in fx.clauses]
+                           + [unparse(v) for k_, v in fx.defs.items() if fx.d.get(k_) is not None])
+            if 'orf_assignment' in txt:
+                bad.append(norm_stmt(st)[:70])
+        chk.ob('C08.h', f"{g_.name}: {len(sites)} generation sites are not conditioned on orf_assignment", g_.where, bool(sites) and not bad,
+               f"generation statements guarded by the ORF-assignment strategy: {bad}: ORFs (and their peptides) are generated under one strategy and not under the other",
+               key=q + '::orf-assignment-scope', fn=g_.qual)
+    reads = [f_.qual for f_ in repo.funcs_in('svgraph', 'cli.call_novel_orf') for n in ast.walk(f_.node)
+             if isinstance(n, ast.Attribute) and n.attr == 'orf_assignment' and isinstance(n.ctx, ast.Load)]
+    allowed = {'svgraph.PeptideVariantGraph:PeptideVariantGraph.call_and_stage_unknown_orf', 'svgraph.PeptideVariantGraph:PVGTraversal.cmp_unknown_orf',
+               'svgraph.PeptideVariantGraph:PVGTraversal.cmp_unknown_orf_check_orf', 'svgraph.PeptideVariantGraph:PVGTraversal.cmp_unknown_orf_keep_all_occurrence',
+               'cli.call_novel_orf:call_novel_orf_peptide'}
+    extra = sorted(set(reads) - allowed - {q_ for q_ in set(reads) if 'cmp_' in q_})
+    chk.ob('C08.h', 'the strategy is read only by the ORF chooser and the cursor comparators', 'moPepGen/svgraph/PeptideVariantGraph.py:1', not extra,
+           f"orf_assignment is also read in {extra}", key='svgraph::orf-assignment-readers')
